@@ -50,8 +50,24 @@ package tls
 //@ ensures [error-yields-zero] result1 != nil ==> result0 == 0
 //@ ensures [enough-bytes-and-a-value-inside-the-bounds-are-accepted] info != nil && info.countSet && len(data) >= int(info.count) ==> ck.called && (ck.res == nil ==> result1 == nil)
 
+// The reflect.Type tokens the codec switches on are distinct types (uint8, uint16, tls.Uint24,
+// uint32, uint64, tls.Enum): established by package initialisation (reflect.TypeOf of six different
+// types) and never assigned again (frame:global-invariant on every function of the package).
+//@ global-invariant uint8Type != uint16Type && uint8Type != uint24Type && uint8Type != uint32Type && uint8Type != uint64Type && uint16Type != uint24Type && uint16Type != uint32Type && uint16Type != uint64Type && uint24Type != uint32Type && uint24Type != uint64Type && uint32Type != uint64Type
+
+//@ global-invariant kindOfType(uint8Type) == reflect.Uint8 && kindOfType(uint16Type) == reflect.Uint16 && kindOfType(uint24Type) == reflect.Uint32 && kindOfType(uint32Type) == reflect.Uint32 && kindOfType(uint64Type) == reflect.Uint64 && kindOfType(enumType) == reflect.Uint64
+
 //@ func parseField
 //@ props C09 C04
+//@ ensures [an-enum-field-decodes-whenever-its-size-octets-are-there-and-the-value-is-in-range] kindOfType(rtypeOf(v)) == reflect.Uint64 && rtypeOf(v) != uint64Type && info != nil && info.countSet && len(data) - initOffset >= int(info.count) ==> rve.called && (rve.res1 == nil ==> result1 == nil && result0 == initOffset + int(info.count))
+//@ ensures [a-byte-array-decodes-whenever-its-octets-are-there-also-when-it-has-none] kindOfType(rtypeOf(v)) == reflect.Array && kindOfType(elemOf(rtypeOf(v))) == reflect.Uint8 && vlenOf(v) <= len(data) - initOffset ==> result1 == nil && result0 == initOffset + vlenOf(v)
+//@ ensures [a-struct-without-fields-decodes-from-no-octets] kindOfType(rtypeOf(v)) == reflect.Struct && numFieldsOf(rtypeOf(v)) == 0 ==> result1 == nil && result0 == initOffset
+//@ ensures [a-byte-vector-decodes-whenever-its-prefix-and-declared-octets-are-there] kindOfType(rtypeOf(v)) == reflect.Slice && kindOfType(elemOf(rtypeOf(v))) == reflect.Uint8 ==> rvs.called && (rvs.res1 == nil && rvs.res0 <= uint64(len(data) - initOffset - int(info.count)) ==> result1 == nil && result0 == initOffset + int(info.count) + int(rvs.res0))
+//@ ensures [a-uint8-field-decodes-from-one-octet] rtypeOf(v) == uint8Type && len(data) - initOffset >= 1 ==> result1 == nil && result0 == initOffset + 1
+//@ ensures [a-uint16-field-decodes-from-two-octets] rtypeOf(v) == uint16Type && len(data) - initOffset >= 2 ==> result1 == nil && result0 == initOffset + 2
+//@ ensures [a-uint24-field-decodes-from-three-octets] rtypeOf(v) == uint24Type && len(data) - initOffset >= 3 ==> result1 == nil && result0 == initOffset + 3
+//@ ensures [a-uint32-field-decodes-from-four-octets] rtypeOf(v) == uint32Type && len(data) - initOffset >= 4 ==> result1 == nil && result0 == initOffset + 4
+//@ ensures [a-uint64-field-decodes-from-eight-octets] rtypeOf(v) == uint64Type && len(data) - initOffset >= 8 ==> result1 == nil && result0 == initOffset + 8
 //@ site SetUint#1 as s8
 //@ site SetUint#2 as s16
 //@ site SetUint#3 as s24
@@ -85,7 +101,7 @@ package tls
 //@ requires info != nil ==> info.count <= 4294967295
 //@ modifies nothing
 //@ frame-trusted writes only through the reflect.Value it is given (reflection: outside the memory model)
-//@ loop 1 invariant initOffset <= offset && offset <= len(data)
+//@ loop 1 invariant initOffset <= offset && offset <= len(data) && 0 <= i && (i == 0 || i <= numFieldsOf(rtypeOf(v))) && (i == 0 ==> offset == initOffset && (forall k string :: !has(selectorSeen, k)))
 //@ loop 3 invariant 0 <= innerOffset && innerOffset <= len(inner)
 //@ ensures [offset-stays-inside-input] result1 == nil ==> initOffset <= result0 && result0 <= len(data)
 //@ ensures [uint8-consumes-1] s8.called ==> result0 == initOffset + 1
